@@ -130,3 +130,24 @@ Example C13_translated_loadEntry_runs :
 Proof. vm_compute. split; reflexivity. Qed.
 
 Print Assumptions C13_translated_loadEntry_complete_or_readers_error.
+
+(* the bucket-header reader, translated likewise ((BucketHeader).readFrom, Load, bucketOffset): for EVERY positioned
+   reader, a complete 16-byte read at headerSize + 16*i is decoded field by field (domain, entry count, hash length,
+   6-byte file offset, little endian); fewer than 16 bytes yield the reader's error and leave the header untouched *)
+Require YF.GoLiteC13_Header.
+
+Theorem C13_translated_bucket_header_complete_or_readers_error :
+  forall (rd : Z -> Z -> list Z * GoLite.val), (forall off len, (0 <= len)%Z -> (GoLite.zlen (fst (rd off len)) <= len)%Z) ->
+  forall fuel dom ne hl fo hs rdv (i : Z),
+  (0 <= hs < 4611686018427387904)%Z -> (0 <= i < 4294967296)%Z -> 2 <= fuel ->
+  GoLite.call GoLiteC13.prog (GoLiteC13_Header.ext_ra rd) fuel "BucketHeader.readFrom"%string
+    [GoLiteC13_Header.hdr_val dom ne hl fo hs; rdv; GoLite.VInt i] =
+  let '(bs, e) := rd (hs + i * 16)%Z 16%Z in
+  if (GoLite.zlen bs <? 16)%Z then GoLite.RRet (GoLite.VTuple [e; GoLiteC13_Header.hdr_val dom ne hl fo hs])
+  else GoLite.RRet (GoLite.VTuple [GoLite.VNil; GoLiteC13_Header.hdr_of_bytes bs hs]).
+Proof.
+  exact (GoLiteC13_Header.readFrom_spec GoLiteC13.prog GoLiteC13.prog_uintLe GoLiteC13.prog_bucketOffset
+           GoLiteC13.prog_BucketHeader_Load GoLiteC13.prog_BucketHeader_readFrom).
+Qed.
+
+Print Assumptions C13_translated_bucket_header_complete_or_readers_error.
